@@ -215,6 +215,21 @@ func (g *genStorage) Block(w *World, b int) Block {
 			add(g.paramStep(rng))
 		}
 	}
+	if g.profile == "gauges" && rng.Chance(1, 10) && len(g.users) >= 3 {
+		// one signer buys equal plans for two other accounts in a single transaction
+		op := g.buyOp(rng, g.users[0])
+		delete(op.N, "ref")
+		delete(op.S, "refstr")
+		op.N["for"] = int64(g.users[1])
+		op2 := mkOp("buy_storage", g.users[0])
+		for k, v := range op.N {
+			op2.N[k] = v
+		}
+		op2.N["for"] = int64(g.users[2])
+		st := txStep(op, op2)
+		st.Fault = "multi_msg"
+		add(st)
+	}
 	if g.profile == "gauges" && rng.Chance(1, 6) && len(g.users) >= 2 {
 		// two buyers, equal parameters, same block: equal gauge identity
 		a, bb := g.users[0], g.users[1]
